@@ -72,6 +72,9 @@ class Resolution:
         self.clashes: List[Clash] = []
         # layers whose view is undefined because they (or an ancestor) have a hard clash
         self.tainted: Set[str] = set()
+        # would-be clashes (>= 2 distinct definitions offered at one priority level) that the
+        # rule settles: (layer, ns, name, how) with how in local | higher-priority
+        self.settled: List[Tuple[str, str, str, str]] = []
 
     @property
     def hard_clashes(self) -> List[Clash]:
@@ -143,9 +146,15 @@ def resolve(hier: J, cats: Dict[str, Tuple[str, Optional[str]]],
                         (PRIORITY[parent["kind"]], parent["name"], ent))
             view: Dict[str, Entry] = {}
             for name, offs in offers.items():
+                top = max(pr for pr, _, _ in offs)
+                for level in set(pr for pr, _, _ in offs):
+                    if len(set(e.marker for pr, _, e in offs if pr == level)) > 1:
+                        if name in local:
+                            res.settled.append((lname, ns, name, "local"))
+                        elif level != top:
+                            res.settled.append((lname, ns, name, "higher-priority"))
                 if name in local:
                     continue
-                top = max(pr for pr, _, _ in offs)
                 counting = [(pn, e) for pr, pn, e in offs if pr == top]
                 losing = [(pn, e) for pr, pn, e in offs if pr != top]
                 via = tuple(sorted(set(by_name[pn]["kind"] for pn, _ in counting)))
